@@ -97,6 +97,12 @@ def _mk_op(rec, successors=(), term=False):
     rtypes = [ts[i % len(ts)] for i in rec.get("r", [])]
     attributes = {ATTR_NAMES[n % len(ATTR_NAMES)]: ats[v % len(ats)] for n, v in rec.get("a", [])}
     props = {PROP_NAMES[n % len(PROP_NAMES)]: ats[v % len(ats)] for n, v in rec.get("p", [])}
+    if "sym_name" in attributes:
+        from xdsl.dialects.builtin import StringAttr
+        if isinstance(attributes["sym_name"], StringAttr):
+            # symbol tables (builtin.module) reject two ops with the same string sym_name
+            _cache["symctr"] = _cache.get("symctr", 0) + 1
+            attributes["sym_name"] = StringAttr(f"{attributes['sym_name'].data}{_cache['symctr']}")
     if term:
         if rec.get("k", 0) % 4 == 3:  # an unregistered terminator (has every trait "if unregistered")
             return unreg_cls("unreg.term").create(result_types=rtypes, attributes=attributes,
